@@ -252,7 +252,7 @@ class Rig:
         if p is None:
             p = client.Proxy(self.uri)
             p._pyroSerializer = ser
-            p._pyroTimeout = 20
+            p._pyroTimeout = float(os.environ.get("C07_TIMEOUT", "20"))
             self.proxies[ser] = p
         return p
 
